@@ -199,16 +199,21 @@ func runC11(w *W) {
 				ne("alias.GetChongDesc", l.GetChongDesc(), l.GetDayChongDesc())
 				ne("alias.GetSha", l.GetSha(), l.GetDaySha())
 				ne("alias.Solar.GetXingzuo", l.GetSolar().GetXingzuo(), l.GetSolar().GetXingZuo())
+				// the deprecated eight-character aliases read the date's own chart: whatever day-boundary convention that chart
+				// is set to, alias and replacement agree
+				for _, sect := range []int{1, 2} {
+					ec.SetSect(sect)
+					ne("alias.GetBaZi", l.GetBaZi(), [4]string{ec.GetYear(), ec.GetMonth(), ec.GetDay(), ec.GetTime()})
+					ne("alias.GetBaZiWuXing", l.GetBaZiWuXing(), [4]string{ec.GetYearWuXing(), ec.GetMonthWuXing(), ec.GetDayWuXing(), ec.GetTimeWuXing()})
+					ne("alias.GetBaZiNaYin", l.GetBaZiNaYin(), [4]string{ec.GetYearNaYin(), ec.GetMonthNaYin(), ec.GetDayNaYin(), ec.GetTimeNaYin()})
+					ne("alias.GetBaZiShiShenGan", l.GetBaZiShiShenGan(), [4]string{ec.GetYearShiShenGan(), ec.GetMonthShiShenGan(), ec.GetDayShiShenGan(), ec.GetTimeShiShenGan()})
+					ne("alias.GetBaZiShiShenZhi", l.GetBaZiShiShenZhi(), [4]string{fmt.Sprint(ec.GetYearShiShenZhi().Front().Value), fmt.Sprint(ec.GetMonthShiShenZhi().Front().Value), fmt.Sprint(ec.GetDayShiShenZhi().Front().Value), fmt.Sprint(ec.GetTimeShiShenZhi().Front().Value)})
+					ne("alias.GetBaZiShiShenYearZhi", l.GetBaZiShiShenYearZhi(), ec.GetYearShiShenZhi())
+					ne("alias.GetBaZiShiShenMonthZhi", l.GetBaZiShiShenMonthZhi(), ec.GetMonthShiShenZhi())
+					ne("alias.GetBaZiShiShenDayZhi", l.GetBaZiShiShenDayZhi(), ec.GetDayShiShenZhi())
+					ne("alias.GetBaZiShiShenTimeZhi", l.GetBaZiShiShenTimeZhi(), ec.GetTimeShiShenZhi())
+				}
 				ec.SetSect(2)
-				ne("alias.GetBaZi", l.GetBaZi(), [4]string{ec.GetYear(), ec.GetMonth(), ec.GetDay(), ec.GetTime()})
-				ne("alias.GetBaZiWuXing", l.GetBaZiWuXing(), [4]string{ec.GetYearWuXing(), ec.GetMonthWuXing(), ec.GetDayWuXing(), ec.GetTimeWuXing()})
-				ne("alias.GetBaZiNaYin", l.GetBaZiNaYin(), [4]string{ec.GetYearNaYin(), ec.GetMonthNaYin(), ec.GetDayNaYin(), ec.GetTimeNaYin()})
-				ne("alias.GetBaZiShiShenGan", l.GetBaZiShiShenGan(), [4]string{ec.GetYearShiShenGan(), ec.GetMonthShiShenGan(), ec.GetDayShiShenGan(), ec.GetTimeShiShenGan()})
-				ne("alias.GetBaZiShiShenZhi", l.GetBaZiShiShenZhi(), [4]string{fmt.Sprint(ec.GetYearShiShenZhi().Front().Value), fmt.Sprint(ec.GetMonthShiShenZhi().Front().Value), fmt.Sprint(ec.GetDayShiShenZhi().Front().Value), fmt.Sprint(ec.GetTimeShiShenZhi().Front().Value)})
-				ne("alias.GetBaZiShiShenYearZhi", l.GetBaZiShiShenYearZhi(), ec.GetYearShiShenZhi())
-				ne("alias.GetBaZiShiShenMonthZhi", l.GetBaZiShiShenMonthZhi(), ec.GetMonthShiShenZhi())
-				ne("alias.GetBaZiShiShenDayZhi", l.GetBaZiShiShenDayZhi(), ec.GetDayShiShenZhi())
-				ne("alias.GetBaZiShiShenTimeZhi", l.GetBaZiShiShenTimeZhi(), ec.GetTimeShiShenZhi())
 				// ---- 4. default school vs explicit school
 				ne("default.GetYearNineStar=sect2", l.GetYearNineStar().GetIndex(), l.GetYearNineStarBySect(2).GetIndex())
 				ne("default.GetMonthNineStar=sect2", l.GetMonthNineStar().GetIndex(), l.GetMonthNineStarBySect(2).GetIndex())
